@@ -22,13 +22,17 @@ structure ClassG (t : Table) (cs : List Char) (re : Bool) : Prop where
   /-- levels: binary of either associativity, prefix, or postfix; no parse actions -/
   kinds : ∀ lv ∈ t.levels, lv.acts = [] ∧
     ((lv.arity = 2 ∧ lv.right = true) ∨ (lv.arity = 1 ∧ lv.right = true) ∨ (lv.arity = 2 ∧ lv.right = false) ∨
-      (lv.arity = 1 ∧ lv.right = false))
+      (lv.arity = 1 ∧ lv.right = false) ∨ (lv.arity = 3 ∧ lv.right = true))
   lparOk : t.lpar ≠ [] ∧ ∀ c, t.lpar.head? = some c → c ∉ t.white ∧ c ∉ cs
   rparOk : t.rpar ≠ [] ∧ ∀ c, t.rpar.head? = some c → c ∉ t.white ∧ c ∉ cs
   opOk : ∀ lv ∈ t.levels, lv.op1 ≠ [] ∧ ∀ c, lv.op1.head? = some c → c ∉ t.white ∧ c ∉ cs
   /-- spellings are pairwise prefix-incomparable -/
   opsInc : ∀ (i j : Nat) (lvi lvj : Level), t.levels[i]? = some lvi → t.levels[j]? = some lvj → i ≠ j → ¬ lvi.op1 <+: lvj.op1
   parInc : ∀ lv ∈ t.levels, ¬ lv.op1 <+: t.lpar ∧ ¬ t.lpar <+: lv.op1 ∧ ¬ lv.op1 <+: t.rpar ∧ ¬ t.rpar <+: lv.op1
+  /-- the second operator of a ternary level: non-empty, does not start with a blank or operand character -/
+  op2Ok : ∀ lv ∈ t.levels, lv.arity = 3 → lv.op2 ≠ [] ∧ ∀ c, lv.op2.head? = some c → c ∉ t.white ∧ c ∉ cs
+  /-- … and is prefix-incomparable with every first operator (its own level's included) -/
+  op2Inc : ∀ lvi ∈ t.levels, ∀ lvj ∈ t.levels, lvi.arity = 3 → ¬ lvj.op1 <+: lvi.op2 ∧ ¬ lvi.op2 <+: lvj.op1
 
 /-- every table of class TL is of class G -/
 theorem ClassTL.toG {t : Table} {cs : List Char} {re : Bool} (h : ClassTL t cs re) : ClassG t cs re where
@@ -40,6 +44,8 @@ theorem ClassTL.toG {t : Table} {cs : List Char} {re : Bool} (h : ClassTL t cs r
   opOk := h.opOk
   opsInc := h.opsInc
   parInc := h.parInc
+  op2Ok := fun lv hlv h3 => by rcases (h.kinds lv hlv).2 with x | x | x <;> (rw [x.1] at h3; cases h3)
+  op2Inc := fun lv hlv _ _ h3 => by rcases (h.kinds lv hlv).2 with x | x | x <;> (rw [x.1] at h3; cases h3)
 
 /-- trees in the normal form of a class-G table: as `WFL`, plus postfix applications whose operand may be of the same
     level (the chain `a op op`) -/
@@ -53,7 +59,9 @@ def WFG (t : Table) (cs : List Char) : Ex → Prop
       ((lv.right = true ∧ a.lvl < k ∧ b.lvl ≤ k) ∨ (lv.right = false ∧ a.lvl ≤ k ∧ b.lvl < k))
   | .post k e wo => ∃ lv, 1 ≤ k ∧ t.levels[k - 1]? = some lv ∧ lv.arity = 1 ∧ lv.right = false ∧
       White t.white wo ∧ WFG t cs e ∧ e.lvl ≤ k
-  | .tern .. => False
+  | .tern k a w1 b w2 c => ∃ lv, 1 ≤ k ∧ t.levels[k - 1]? = some lv ∧ lv.arity = 3 ∧ lv.right = true ∧
+      White t.white w1 ∧ White t.white w2 ∧ WFG t cs a ∧ WFG t cs b ∧ WFG t cs c ∧
+      a.lvl < k ∧ b.lvl ≤ k ∧ c.lvl ≤ k
 
 /-- `WFL` trees are `WFG` trees -/
 theorem WFL.toWFG {t : Table} {cs : List Char} : ∀ e, WFL t cs e → WFG t cs e := by
@@ -70,7 +78,7 @@ theorem WFL.toWFG {t : Table} {cs : List Char} : ∀ e, WFL t cs e → WFG t cs 
     intro h
     obtain ⟨lv, h1, h2, h3, h4, h5, h6, h7⟩ := h
     exact ⟨lv, h1, h2, h3, h4, iha h5, ihb h6, h7⟩
-  | tern k a w1 b w2 c iha ihb ihc => exact id
+  | tern k a w1 b w2 c iha ihb ihc => intro h; exact absurd h id
 
 /-- what may follow a tree parsed at level `k`: not an operand character, and (after blanks) not the operator of a
     non-prefix (infix or postfix) level `≤ k` -/
@@ -105,7 +113,7 @@ theorem lead_white : ∀ e, WFG t cs e → White t.white (lead e) := by
   | pre k wo e ih => intro h; obtain ⟨lv, _, _, _, _, hw, _⟩ := h; exact hw
   | post k e wo ih => intro h; obtain ⟨lv, _, _, _, _, _, he, _⟩ := h; exact ih he
   | bin k a wo b iha ihb => intro h; obtain ⟨lv, _, _, _, _, ha, _⟩ := h; exact iha ha
-  | tern k a w1 b w2 c iha ihb ihc => intro h; exact absurd h id
+  | tern k a w1 b w2 c iha ihb ihc => intro h; obtain ⟨lv, _, _, _, _, _, _, ha, _⟩ := h; exact iha ha
 
 /-- the first character of the spelling proper is neither a blank nor an operand character, unless it is an atom -/
 theorem renderB_head : ∀ e, WFG t cs e → ∃ c r, renderB t e = c :: r ∧ c ∉ t.white := by
@@ -134,7 +142,11 @@ theorem renderB_head : ∀ e, WFG t cs e → ∃ c r, renderB t e = c :: r ∧ c
     obtain ⟨lv, _, _, _, _, ha, _⟩ := h
     obtain ⟨c, r, hr, hc⟩ := iha ha
     exact ⟨c, r ++ wo ++ opOf t k ++ render t b, by simp [renderB, hr], hc⟩
-  | tern k a w1 b w2 c iha ihb ihc => intro h; exact absurd h id
+  | tern k a w1 b w2 c iha ihb ihc =>
+    intro h
+    obtain ⟨lv, _, _, _, _, _, _, ha, _⟩ := h
+    obtain ⟨c0, r, hr, hc⟩ := iha ha
+    exact ⟨c0, r ++ w1 ++ opOf t k ++ render t b ++ w2 ++ op2Of t k ++ render t c, by simp [renderB, hr], hc⟩
 
 /-- an operator of a level above the tree's is not a prefix of its spelling -/
 theorem op_not_prefix {k' : Nat} {lv' : Level} (hk' : 1 ≤ k') (hlv' : t.levels[k' - 1]? = some lv') :
@@ -173,7 +185,12 @@ theorem op_not_prefix {k' : Nat} {lv' : Level} (hk' : 1 ≤ k') (hlv' : t.levels
     simp only [Ex.lvl] at hl
     simp only [renderB, List.append_assoc]
     exact iha ha (by omega) _
-  | tern k a w1 b w2 c iha ihb ihc => intro h; exact absurd h id
+  | tern k a w1 b w2 c iha ihb ihc =>
+    intro h hl suf
+    obtain ⟨lv, hk, hlv, _, _, _, _, ha, _, _, hla, _⟩ := h
+    simp only [Ex.lvl] at hl
+    simp only [renderB, List.append_assoc]
+    exact iha ha (by omega) _
 
 end facts
 section levels
@@ -254,7 +271,7 @@ theorem goal_lift {e : Ex} {K : Nat} {lv : Level} (hK : 1 ≤ K) (hlv : t.levels
   have hsub := fun a' c' loc' h' => ih q suf hs hq (hf.mono (by omega)) a' c' loc' h'
   -- the lookahead body fails
   have hbody : ∃ l, Holds t s (E K + 5) q false true (.fail .parse l) := by
-    rcases hkind.2 with ⟨ha, hr⟩ | ⟨ha, hr⟩ | ⟨ha, hr⟩ | ⟨ha, hr⟩
+    rcases hkind.2 with ⟨ha, hr⟩ | ⟨ha, hr⟩ | ⟨ha, hr⟩ | ⟨ha, hr⟩ | ⟨ha, hr⟩
     · have g5 : (infixGrammar t)[E K + 5]? = some (mkNode t.white (.and [E (K - 1), E K + 7, E K]) true true) := by
         rw [gram_level t hK hlv (by omega)]; simp [levelNodes, ha, hr]
       have hopf : ¬ lv.op1 <+: s.drop (skipWhite t.white s (q + (renderB t e).length)) :=
@@ -279,6 +296,13 @@ theorem goal_lift {e : Ex} {K : Nat} {lv : Level} (hK : 1 ≤ K) (hlv : t.levels
         rw [gram_level t hK hlv (by omega)]; simp [levelNodes, ha, hr]
       have hopf : ¬ lv.op1 <+: s.drop (skipWhite t.white s (q + (renderB t e).length)) :=
         hf.2 K lv hK (Nat.le_refl _) hlv (by simp [hr])
+      obtain ⟨l, hl⟩ := H_lit_fail t s (a := false) (c := true) (hfbF 7 (by omega) (by omega)) g7 (preOf_true _ _ _) hop.1 hopf
+      refine ⟨l, H_and t s (hfbF 5 (by omega) (by omega)) g5 (hns hT) (hsub false false _ ?_) (HRest.cons_fail t s _ hl) (Or.inr ⟨l, rfl⟩)⟩
+      rw [preOf_false, preOf_true, hq]
+    · have g5 : (infixGrammar t)[E K + 5]? = some (mkNode t.white (.and [E (K - 1), E K + 7, E K, E K + 8, E K]) true true) := by
+        rw [gram_level t hK hlv (by omega)]; simp [levelNodes, ha, hr]
+      have hopf : ¬ lv.op1 <+: s.drop (skipWhite t.white s (q + (renderB t e).length)) :=
+        hf.2 K lv hK (Nat.le_refl _) hlv (by simp [ha])
       obtain ⟨l, hl⟩ := H_lit_fail t s (a := false) (c := true) (hfbF 7 (by omega) (by omega)) g7 (preOf_true _ _ _) hop.1 hopf
       refine ⟨l, H_and t s (hfbF 5 (by omega) (by omega)) g5 (hns hT) (hsub false false _ ?_) (HRest.cons_fail t s _ hl) (Or.inr ⟨l, rfl⟩)⟩
       rw [preOf_false, preOf_true, hq]
@@ -1031,6 +1055,139 @@ theorem post_parse {k : Nat} {lv : Level} (hK : 1 ≤ k) (hlv : t.levels[k - 1]?
   simpa [pN] using this
 
 end postL
+
+/-! ### right-associative ternary levels -/
+
+theorem op2Of_eq {t : Table} {k : Nat} {lv : Level} (h : t.levels[k - 1]? = some lv) : op2Of t k = lv.op2 := by
+  simp [op2Of, h]
+
+section ternR
+variable {t : Table} {cs : List Char} {re : Bool} (hT : ClassG t cs re) (s : List Char)
+include hT
+
+/-- a RIGHT-associative ternary application `a op1 b op2 c` at its own level:
+    `_FB(lastExpr + op1 + thisExpr + op2 + thisExpr) + Group(lastExpr + op1 + thisExpr + op2 + thisExpr)` -/
+theorem goal_ternR {k : Nat} {w1 w2 : List Char} {ea eb ec : Ex} (h : WFG t cs (.tern k ea w1 eb w2 ec))
+    (iha : GoalG t cs s ea (k - 1)) (ihb : GoalG t cs s eb k) (ihc : GoalG t cs s ec k) :
+    GoalG t cs s (.tern k ea w1 eb w2 ec) k := by
+  intro q suf hs hq hf a c loc hloc
+  obtain ⟨lv, hK, hlv, ha, hr, hw1, hw2, hwa, hwb, hwc, _, _, _⟩ := h
+  have hKn : k ≤ t.levels.length := by
+    have := (List.getElem?_eq_some_iff.mp hlv).1; omega
+  have hkind := hT.kinds lv (lv_mem hlv)
+  have hop := hT.opOk lv (lv_mem hlv)
+  have hop2 := hT.op2Ok lv (lv_mem hlv) ha
+  obtain ⟨oc, or', hor⟩ := List.exists_cons_of_ne_nil hop.1
+  have hoc := hop.2 oc (by simp [hor])
+  obtain ⟨pc, pr', hpr⟩ := List.exists_cons_of_ne_nil hop2.1
+  have hpc := hop2.2 pc (by simp [hpr])
+  have hfbF : ∀ j, j < 14 → j ≠ 3 → (fbIds t).elem (E k + j) = false := by
+    intro j hj h3; rw [fb_level t hK hKn hj]; simp [h3]
+  have hfbT : (fbIds t).elem (E k + 3) = true := by rw [fb_level t hK hKn (by omega)]; simp
+  have g0 : (infixGrammar t)[E k + 0]? = some (mkNode t.white (.forward (some (E k + 1))) true true) := by
+    rw [gram_level t hK hlv (by omega)]; simp [levelNodes]
+  have g1 : (infixGrammar t)[E k + 1]? = some (mkNode t.white (.matchFirst ((E k + 2) :: tailOf t k)) true false) := by
+    rw [gram_level t hK hlv (by omega)]; simp [levelNodes]
+  have g2 : (infixGrammar t)[E k + 2]? = some (mkNode t.white (.and [E k + 3, E k + 4]) true true) := by
+    rw [gram_level t hK hlv (by omega)]; simp [levelNodes, hkind.1, mkNode]
+  have g3 : (infixGrammar t)[E k + 3]? = some (mkNode t.white (.followedBy (E k + 5)) true true) := by
+    rw [gram_level t hK hlv (by omega)]; simp [levelNodes]
+  have g4 : (infixGrammar t)[E k + 4]? = some (mkNode t.white (.group (E k + 6)) true true) := by
+    rw [gram_level t hK hlv (by omega)]; simp [levelNodes]
+  have g5 : (infixGrammar t)[E k + 5]? = some (mkNode t.white (.and [E (k - 1), E k + 7, E k, E k + 8, E k]) true true) := by
+    rw [gram_level t hK hlv (by omega)]; simp [levelNodes, ha, hr]
+  have g6 : (infixGrammar t)[E k + 6]? = some (mkNode t.white (.and [E (k - 1), E k + 11, E k, E k + 12, E k]) true true) := by
+    rw [gram_level t hK hlv (by omega)]; simp [levelNodes, ha, hr]
+  have g7 : (infixGrammar t)[E k + 7]? = some (mkNode t.white (litKind lv.op1) false true) := by
+    rw [gram_level t hK hlv (by omega)]; simp [levelNodes]
+  have g8 : (infixGrammar t)[E k + 8]? = some (mkNode t.white (litKind lv.op2) false true) := by
+    rw [gram_level t hK hlv (by omega)]; simp [levelNodes, ha, hr]
+  have g11 : (infixGrammar t)[E k + 11]? = some (mkNode t.white (litKind lv.op1) false true) := by
+    rw [gram_level t hK hlv (by omega)]; simp [levelNodes, ha]
+  have g12 : (infixGrammar t)[E k + 12]? = some (mkNode t.white (litKind lv.op2) false true) := by
+    rw [gram_level t hK hlv (by omega)]; simp [levelNodes, ha]
+  have hs0 : s.drop q = renderB t ea ++ (w1 ++ (lv.op1 ++ (lead eb ++ (renderB t eb ++
+      (w2 ++ (lv.op2 ++ (lead ec ++ (renderB t ec ++ suf)))))))) := by
+    rw [hs]; simp [renderB, render_eq, opOf_eq hlv, op2Of_eq hlv, List.append_assoc]
+  have h1 := drop_add hs0
+  have h2 := drop_add h1
+  have h3 := drop_add h2
+  have h4 := drop_add h3
+  have h5 := drop_add h4
+  have h6 := drop_add h5
+  have h7 := drop_add h6
+  have h8 := drop_add h7
+  have hpa : skipWhite t.white s (q + (renderB t ea).length) = q + (renderB t ea).length + w1.length :=
+    skipWhite_eq h1 hw1 (by intro d hd; rw [hor] at hd; simp at hd; subst hd; exact hoc.1)
+  have hqb1 := skip_lead hT s hwb h3
+  have hqb2 := skip_at_body hT s hwb h4
+  have hpb := skipWhite_eq h5 hw2 (by intro d hd; rw [hpr] at hd; simp at hd; subst hd; exact hpc.1)
+  have hqc1 := skip_lead hT s hwc h7
+  have hqc2 := skip_at_body hT s hwc h8
+  have hlen : q + (renderB t (.tern k ea w1 eb w2 ec)).length
+      = q + (renderB t ea).length + w1.length + lv.op1.length + (lead eb).length + (renderB t eb).length
+        + w2.length + lv.op2.length + (lead ec).length + (renderB t ec).length := by
+    simp [renderB, render_eq, opOf_eq hlv, op2Of_eq hlv, List.length_append]; omega
+  rw [hlen] at hf ⊢
+  have hfolA : FollowG t cs s (k - 1) (q + (renderB t ea).length) := by
+    constructor
+    · exact next_not_cs h1 hor hoc.2 (white_not_cs hT hw1)
+    · intro j lvj hj1 hjk hlvj _
+      rw [hpa, h2]
+      exact not_prefix_append _ (hT.opsInc _ _ _ _ hlvj hlv (by omega)) (hT.opsInc _ _ _ _ hlv hlvj (by omega))
+  have hfolB : FollowG t cs s k
+      (q + (renderB t ea).length + w1.length + lv.op1.length + (lead eb).length + (renderB t eb).length) := by
+    constructor
+    · exact next_not_cs h5 hpr hpc.2 (white_not_cs hT hw2)
+    · intro j lvj hj1 hjk hlvj _
+      rw [hpb, h6]
+      have := hT.op2Inc lv (lv_mem hlv) lvj (lv_mem hlvj) ha
+      exact not_prefix_append _ this.1 this.2
+  have hA : ∀ a', Holds t s (E (k - 1)) q a' false (.ok (q + (renderB t ea).length) [nest t ea]) :=
+    fun a' => iha q _ hs0 hq hfolA a' false q (preOf_false _ _ _)
+  have hOp1 : ∀ id, id = 7 ∨ id = 11 → ∀ a', Holds t s (E k + id) (q + (renderB t ea).length) a' true
+      (.ok (q + (renderB t ea).length + w1.length + lv.op1.length) [.s lv.op1]) := by
+    intro id hid a'
+    rcases hid with rfl | rfl
+    · exact H_lit_ok t s (hfbF 7 (by omega) (by omega)) g7 (by rw [preOf_true, hpa]) hop.1 h2
+    · exact H_lit_ok t s (hfbF 11 (by omega) (by omega)) g11 (by rw [preOf_true, hpa]) hop.1 h2
+  have hB : ∀ a', Holds t s (E k) (q + (renderB t ea).length + w1.length + lv.op1.length) a' true
+      (.ok (q + (renderB t ea).length + w1.length + lv.op1.length + (lead eb).length + (renderB t eb).length) [nest t eb]) :=
+    fun a' => ihb _ _ h4 hqb2 hfolB a' true _ (by rw [preOf_true, hqb1])
+  have hOp2 : ∀ id, id = 8 ∨ id = 12 → ∀ a', Holds t s (E k + id)
+      (q + (renderB t ea).length + w1.length + lv.op1.length + (lead eb).length + (renderB t eb).length) a' true
+      (.ok (q + (renderB t ea).length + w1.length + lv.op1.length + (lead eb).length + (renderB t eb).length
+        + w2.length + lv.op2.length) [.s lv.op2]) := by
+    intro id hid a'
+    rcases hid with rfl | rfl
+    · exact H_lit_ok t s (hfbF 8 (by omega) (by omega)) g8 (by rw [preOf_true, hpb]) hop2.1 h6
+    · exact H_lit_ok t s (hfbF 12 (by omega) (by omega)) g12 (by rw [preOf_true, hpb]) hop2.1 h6
+  have hC : ∀ a', Holds t s (E k) (q + (renderB t ea).length + w1.length + lv.op1.length + (lead eb).length + (renderB t eb).length
+        + w2.length + lv.op2.length) a' true
+      (.ok (q + (renderB t ea).length + w1.length + lv.op1.length + (lead eb).length + (renderB t eb).length
+        + w2.length + lv.op2.length + (lead ec).length + (renderB t ec).length) [nest t ec]) :=
+    fun a' => ihc _ _ h8 hqc2 hf a' true _ (by rw [preOf_true, hqc1])
+  have hbody := H_and t s (a := false) (c := true) (loc := q) (hfbF 5 (by omega) (by omega)) g5 (hns hT)
+      (by rw [preOf_true, hq]; exact hA false)
+      (HRest.cons_ok t s (hOp1 7 (Or.inl rfl) false) (HRest.cons_ok t s (hB false)
+        (HRest.cons_ok t s (hOp2 8 (Or.inl rfl) false) (HRest.cons_ok t s (hC false) (HRest.nil t s _ _ _)))))
+      (Or.inl ⟨_, _, rfl⟩)
+  have hfb : Holds t s (E k + 3) q a false (.ok q []) := by
+    have := H_fb_ok t s (a := a) (c := false) (loc := q) hfbT g3 (by rw [preOf_false]; exact hbody)
+    simpa [preOf_false] using this
+  have hgb := H_and t s (a := a) (c := false) (loc := q) (hfbF 6 (by omega) (by omega)) g6 (hns hT)
+      (by rw [preOf_false]; exact hA a)
+      (HRest.cons_ok t s (hOp1 11 (Or.inr rfl) a) (HRest.cons_ok t s (hB a)
+        (HRest.cons_ok t s (hOp2 12 (Or.inr rfl) a) (HRest.cons_ok t s (hC a) (HRest.nil t s _ _ _)))))
+      (Or.inl ⟨_, _, rfl⟩)
+  have hgrp := H_group_ok t s (a := a) (c := true) (loc := q) (hfbF 4 (by omega) (by omega)) g4 (by rw [preOf_true, hq]; exact hgb)
+  have hm := H_and t s (a := a) (c := true) (loc := q) (hfbF 2 (by omega) (by omega)) g2 (hns hT) (by rw [preOf_true, hq]; exact hfb)
+      (HRest.cons_ok t s hgrp (HRest.nil t s _ _ _)) (Or.inl ⟨_, _, rfl⟩)
+  have hmf := H_mf_ok t s (a := a) (c := false) (loc := q) (hfbF 1 (by omega) (by omega)) g1 (HMf.head t s _ hm)
+  have := H_forward_ok t s (a := a) (c := c) (loc := loc) (hfbF 0 (by omega) (by omega)) g0 (by rw [hloc]; exact hmf)
+  simpa [nest, rightOf, hlv, hr, opOf_eq hlv, op2Of_eq hlv] using this
+
+end ternR
 
 end Gen
 end PP.Infix
